@@ -208,3 +208,15 @@ def inside_area_of_maintenance(m, record):
     d = uf('euclid', 'real', record['location']['referencePosition']['latitude'], record['location']['referencePosition']['longitude'],
            m.area_of_maintenance.reference_position.latitude, m.area_of_maintenance.reference_position.longitude)
     return code == 7 or int(d) < relevance_metres(code)
+
+
+def message_type_id(record):
+    """EN 302 895 data object type of a stored record, from the message it holds (DENM 1, CAM 2, VAM 16)"""
+    d = record['dataObject']
+    if 'denm' in d:
+        return 1
+    if 'cam' in d:
+        return 2
+    if 'vam' in d:
+        return 16
+    return None
